@@ -345,12 +345,16 @@ class TCPTransport(Transport):
             conn.send(conn.recvRandKey)
             return
 
-        # Utility messages
-        if isinstance(message, list) and self._onUtilityMessage(conn, message):
-            return
+        try:
+            # Utility messages
+            if isinstance(message, list) and self._onUtilityMessage(conn, message):
+                return
 
-        # At this point, message should be either a node ID (i.e. address) or 'readonly'
-        node = self._nodeAddrToNode[message] if message in self._nodeAddrToNode else None
+            # At this point, message should be either a node ID (i.e. address) or 'readonly'
+            node = self._nodeAddrToNode[message] if message in self._nodeAddrToNode else None
+        except (TypeError, IndexError, KeyError):
+            # Neither a utility command nor an address (empty or unhashable): an unknown peer like any other
+            node, message = None, None
 
         if node is None and message != 'readonly':
             conn.disconnect()
